@@ -104,6 +104,7 @@ def build(db):
     T.binops = arms.adt_variants(db, BINOP)
     T.unops = arms.adt_variants(db, UNOP)
     T.stys = [short(v) for v in arms.adt_variants(db, STY)]
+    T.accepts = {}
     # ---- class()
     tab, f = variant_map(db, F_BIN_CLASS, BINOP)
     T.bin_class = {}
@@ -119,18 +120,35 @@ def build(db):
     T.bin_check = {}
     for v, arm in tab.items():
         calls = [c for c in arms.calls_in(arm["b"]) if c.startswith(REQ)]
-        T.bin_check[v] = calls[0] if calls else (("never",) if arm["b"].get("never") else None)
+        T.bin_check[v] = calls[0] if calls else (("never",) if arm["b"].get("never") else "accept-all")
     T.bin_check_same = any(c == REQ + "same" for c in arms.calls_in(f.hir))
     # ---- unop_check: op -> require fn
-    tab, f = variant_map(db, F_UN_CHECK, UNOP)
     T.un_check = {}
-    for v, arm in tab.items():
-        calls = [c for c in arms.calls_in(arm["b"]) if c.startswith(REQ)]
-        T.un_check[v] = calls[0] if calls else None
+    fuc = db.fn(F_UN_CHECK)
+    if arms.first_match(fuc, db, UNOP) is not None:
+        tab, f = variant_map(db, F_UN_CHECK, UNOP)
+        for v, arm in tab.items():
+            calls = [c for c in arms.calls_in(arm["b"]) if c.startswith(REQ)]
+            T.un_check[v] = calls[0] if calls else (("never",) if arm["b"].get("never") else "accept-all")
+    else:
+        # dispatch on op.class(): compose with UnOpKind::class
+        m = arms.first_match(fuc, db, OPCLASS)
+        if m is None:
+            raise MissingAnchor("unop_check matches neither on UnOpKind nor on OpClass")
+        ctab = expand(db, m, OPCLASS)
+        utab, _ = variant_map(db, "ast::UnOpKind::class", UNOP)
+        for v, arm in utab.items():
+            a = arms.abstract(arm["b"])
+            cls = a[1] if a[0] in ("path", "ctor") else None
+            carm = ctab.get(cls)
+            if carm is None:
+                T.un_check[v] = None
+                continue
+            calls = [c for c in arms.calls_in(carm["b"]) if c.startswith(REQ)]
+            T.un_check[v] = calls[0] if calls else (("never",) if carm["b"].get("never") else "accept-all")
     # ---- require_* acceptance
-    T.accepts = {}
     for r in set(x for x in list(T.bin_check.values()) + list(T.un_check.values()) if isinstance(x, str)):
-        T.accepts[r] = require_accepts(db, r)
+        T.accepts[r] = set(T.stys) if r == "accept-all" else require_accepts(db, r)
     T.exact_eq = exact_is_equality(db)
     # ---- _binop_ty: class -> 'arg' | ScalarType
     f = db.fn(F_BIN_TY)
